@@ -90,6 +90,8 @@ pub struct Knobs {
     pub h_burn: u32,
     /// concurrent sub-operations inside one handler (join!)
     pub h_join: u32,
+    /// tell_with_timeout to the handler's own actor through the reference the handler was given
+    pub h_tell_self: u32,
     // hooks
     pub start_steps: u32, // permille
     pub start_fail: u32,
@@ -149,6 +151,7 @@ impl Knobs {
             h_budget: 1,
             h_burn: 0,
             h_join: 2,
+            h_tell_self: 3,
             start_steps: 300,
             start_fail: 0,
             start_panic: 0,
@@ -189,7 +192,7 @@ fn gen_msg(g: &mut G, k: &Knobs, actor: usize, n_actors: usize, depth: u32, join
     if g.chance(k.h_steps) {
         let n = g.range(1, 3);
         for _ in 0..n {
-            let w = [k.h_yield, k.h_sleep, k.h_tell_peer, k.h_ask_peer, k.h_stopself, k.h_killself, k.h_panic, k.h_stall, k.h_cloneself, k.h_budget, k.h_burn, k.h_join];
+            let w = [k.h_yield, k.h_sleep, k.h_tell_peer, k.h_ask_peer, k.h_stopself, k.h_killself, k.h_panic, k.h_stall, k.h_cloneself, k.h_budget, k.h_burn, k.h_join, k.h_tell_self];
             match g.weighted(&w) {
                 0 => steps.push(Op::Yield(g.range(1, 3) as u32)),
                 1 => steps.push(Op::Sleep(g.pick(&k.sleeps))),
@@ -240,6 +243,7 @@ fn gen_msg(g: &mut G, k: &Knobs, actor: usize, n_actors: usize, depth: u32, join
                     }
                     steps.push(if g.chance(350) { Op::Race(subs) } else { Op::Join(subs) });
                 }
+                12 => steps.push(Op::TellSelf { m: Msg::work(g.mid()), ms: g.pick(&[1u64, 2, 5]) }),
                 _ => steps.push(Op::Yield(1)),
             }
         }
